@@ -188,12 +188,12 @@ void run_family(vf::Ctx &c) {
       fam.push_back(std::move(m));
     } else {
       int i = alive[ti];
-      int nops = 6 + 8 + 1 + 1 + 1 + ((int)alive.size() - 1);
+      int nops = 4 + 8 + 1 + 1 + 1 + ((int)alive.size() - 1);
       int op = c.pick("op", nops);
-      if (op < 6) {  // SetValue(key, value)
-        const std::string &k = set_keys[op / 2];
+      if (op < 4) {  // SetValue(key, value): ("a",int) ("b",int) ("",int) ("a",span)
+        const std::string &k = set_keys[op % 3];
         c.stage("SetValue");
-        ContextValue v; MV mv; fresh_value(op % 2, &v, &mv);
+        ContextValue v; MV mv; fresh_value(op / 3, &v, &mv);
         vfq::HeapStr hk(k);
         Member m;
         m.ctx.reset(new Context(fam[i].ctx->SetValue(hk.view(), v)));
@@ -202,8 +202,8 @@ void run_family(vf::Ctx &c) {
         m.model[k] = mv;
         hist += vf::sfmt(" %zu=ctx%d.SetValue('%s',%s)", fam.size(), i, k.c_str(), show(mv).c_str());
         fam.push_back(std::move(m));
-      } else if (op < 14) {  // SetValues(map)
-        int subset = op - 6;
+      } else if (op < 12) {  // SetValues(map)
+        int subset = op - 4;
         c.stage("SetValues");
         std::map<std::string, ContextValue> vals;
         Model delta;
@@ -215,7 +215,7 @@ void run_family(vf::Ctx &c) {
         for (auto &e : delta) m.model[e.first] = e.second;
         hist += vf::sfmt(" %zu=ctx%d.SetValues{%s%s%s}", fam.size(), i, subset & 1 ? "a" : "", subset & 2 ? ",b" : "", subset & 4 ? ",ab" : "");
         fam.push_back(std::move(m));
-      } else if (op == 14) {  // RuntimeContext::SetValue(key, value, &ctx)
+      } else if (op == 12) {  // RuntimeContext::SetValue(key, value, &ctx)
         c.stage("RuntimeContext::SetValue");
         ContextValue v; MV mv; fresh_value(0, &v, &mv);
         vfq::HeapStr hk("b");
@@ -226,7 +226,7 @@ void run_family(vf::Ctx &c) {
         m.model["b"] = mv;
         hist += vf::sfmt(" %zu=RuntimeContext::SetValue('b',%s,&ctx%d)", fam.size(), show(mv).c_str(), i);
         fam.push_back(std::move(m));
-      } else if (op == 15) {  // copy construction: the copy answers like the original
+      } else if (op == 13) {  // copy construction: the copy answers like the original
         c.stage("copy");
         Member m;
         m.ctx.reset(new Context(*fam[i].ctx));
@@ -234,12 +234,12 @@ void run_family(vf::Ctx &c) {
         c.check(*m.ctx == *fam[i].ctx, "C10:equality", "a copy of a context is not equal to the original");
         hist += vf::sfmt(" %zu=copy(ctx%d)", fam.size(), i);
         fam.push_back(std::move(m));
-      } else if (op == 16) {  // drop: the other contexts must not depend on this handle
+      } else if (op == 14) {  // drop: the other contexts must not depend on this handle
         c.stage("drop");
         fam[i].ctx.reset();
         hist += vf::sfmt(" drop(ctx%d)", i);
       } else {  // rebind a variable: ctx_i = ctx_j (j != i; self assignment belongs to C20)
-        int j = alive[op - 17 < ti ? op - 17 : op - 17 + 1];
+        int j = alive[op - 15 < ti ? op - 15 : op - 15 + 1];
         c.stage("assign");
         *fam[i].ctx = *fam[j].ctx;
         fam[i].model = fam[j].model;
@@ -384,11 +384,17 @@ void run_stack(vf::Ctx &c) {
         // a Scope frame's content (inherited "k", own span) is part of its label
         c.prune_point(h);
       }
-      // alphabet, simplest first
-      int nt = (int)w.toks.size(), ns = (int)w.scopes.size();
+      // alphabet, simplest first.  Tokens with the same context are interchangeable (a Token holds nothing but its
+      // const Context), so Detach / ~Token choose an identity among the live tokens, not a token index.
+      std::vector<int> tid;  // distinct identities among the live tokens, in E A B F order
+      for (int id = 0; id < 4; ++id)
+        for (auto &t : w.toks) if (t.id == id) { tid.push_back(id); break; }
+      int nt = (int)tid.size(), ns = (int)w.scopes.size();
       int n = 3 + 1 + 1 + nt + nt + ns;
       int op = c.pick("op", n);
       c.step();
+      auto newest = [&](int id) { for (size_t j = w.toks.size(); j > 0; --j) if (w.toks[j - 1].id == id) return j - 1; return size_t(0); };
+      auto oldest = [&](int id) { for (size_t j = 0; j < w.toks.size(); ++j) if (w.toks[j].id == id) return j; return size_t(0); };
       if (op < 3) {  // Attach(E / A / B)
         c.stage("Attach");
         int id = op;
@@ -418,19 +424,19 @@ void run_stack(vf::Ctx &c) {
         c.stage("ForeignToken");
         w.toks.push_back({nostd::unique_ptr<context::Token>(new context::Token(w.ids[3].ctx)), 3});
         hist += " ForeignToken(F)";
-      } else if (op < 5 + nt) {  // Detach(token_j): the token stays alive and can be detached again
-        int j = op - 5;
+      } else if (op < 5 + nt) {  // Detach(token): the token stays alive and can be detached again
+        int id = tid[op - 5];
+        size_t j = oldest(id);  // the token of the OLDEST attach of that context: still matched most-recent-first
         c.stage("Detach");
-        int id = w.toks[j].id;
-        hist += vf::sfmt(" Detach(t%d:%s)", j, w.ids[id].name.c_str());
+        hist += vf::sfmt(" Detach(token:%s)", w.ids[id].name.c_str());
         bool got = RuntimeContext::Detach(*w.toks[j].tok);
         bool found = w.model_detach(id);
         check_detach_result(c, got, found, w.same_identity(id, 0), hist);
       } else if (op < 5 + 2 * nt) {  // ~Token
-        int j = op - 5 - nt;
+        int id = tid[op - 5 - nt];
+        size_t j = newest(id);
         c.stage("~Token");
-        int id = w.toks[j].id;
-        hist += vf::sfmt(" ~Token(t%d:%s)", j, w.ids[id].name.c_str());
+        hist += vf::sfmt(" ~Token(%s)", w.ids[id].name.c_str());
         w.toks.erase(w.toks.begin() + j);  // destroys the real token: detaches
         w.model_detach(id);
       } else {  // Scope pop (any live scope, not only the innermost)
